@@ -42,15 +42,18 @@ class C10(Prop):
             else:
                 c = gen.gen_map_node(rng)
                 inner = [c["program"][0]]
-                mo = ["x"] + [p for p in ("y", "z") if any(q[0] == p for q in inner[0]["nodes"][0]["params"])]
+                a_node = next(n for n in inner[0]["nodes"] if n["name"] == "a")
+                mo = ["x"] + [p for p in ("y", "z") if any(q[0] == p for q in a_node["params"])]
+                rng.shuffle(mo)
                 n = rng.randint(0, 4)
                 mode = rng.choice(["zip", "product"])
                 values = []
                 for p in mo:
                     ln = n if mode == "zip" and rng.random() < 0.9 else rng.randint(0, 3)
                     values.append([p, {"l": [rng.randint(0, 4) for _ in range(ln)]}])
-                if any(q[0] == "c" for q in inner[0]["nodes"][0]["params"]):
+                if any(q[0] == "c" for q in a_node["params"]):
                     values.append(["c", gen.rand_value(rng)])
+                rng.shuffle(values)
                 yield {"kind": "map", "program": inner, "values": values, "mapOver": mo, "mode": mode, "mapErr": rng.choice(["raise", "continue"]),
                        "cfg": {}, "runner": rng.choice(["sync", "async"]), "k": rng.choice([None, 1, 2, 3]), "seed": rng.randint(0, 10**6)}
 
